@@ -22,3 +22,4 @@ func simBeforeSend(chan osm.Object)      {}
 func simBeforeRecv(chan osm.Object)      {}
 func simBeforeClose(chan osm.Object)     {}
 func simBeforeLockAny(interface{}, bool) {}
+func simYield()                          {}
